@@ -233,6 +233,25 @@ Theorem C14_hetero_k_lookup : forall bin a b, pair_consistent Cas (map to_brec b
 Proof. exact hetero_k_blookup. Qed.
 Print Assumptions C14_hetero_k_lookup.
 
+(** Heterosegmented gc-PC-SAFT: the squared dipole moment of a molecule is the sum of mu^2 over ALL its segments
+    (count-weighted over the kinds), independent of the segment order, additive over parts of the molecule; a dipolar
+    group that occurs n times contributes n times. *)
+Theorem C14_hetero_mu2_rule : forall mus segs, hetero_mu2 mus segs == lsum (map (mu_sq mus) segs).
+Proof. exact hetero_mu2_rule. Qed.
+Print Assumptions C14_hetero_mu2_rule.
+
+Theorem C14_hetero_mu2_perm : forall mus segs segs', Permutation segs segs' -> hetero_mu2 mus segs == hetero_mu2 mus segs'.
+Proof. exact hetero_mu2_perm. Qed.
+Print Assumptions C14_hetero_mu2_perm.
+
+Theorem C14_hetero_mu2_additive : forall mus s1 s2, hetero_mu2 mus (s1 ++ s2) == hetero_mu2 mus s1 + hetero_mu2 mus s2.
+Proof. exact hetero_mu2_app. Qed.
+Print Assumptions C14_hetero_mu2_additive.
+
+Theorem C14_hetero_mu2_repeat : forall mus id n, hetero_mu2 mus (repeat id n) == qn n * mu_sq mus id.
+Proof. exact hetero_mu2_repeat. Qed.
+Print Assumptions C14_hetero_mu2_repeat.
+
 (* ------------------------------------------------------------------ serde round trip (shape model) *)
 
 Theorem C14_serde_identifier : forall i, parse_ident (print_ident i) = Some i.
@@ -265,6 +284,16 @@ Print Assumptions C14_serde_binary.
 Theorem C14_serde_binary_behaviour : forall b, overrides (norm_binary b) = overrides b /\ print_binary (norm_binary b) = print_binary b.
 Proof. exact (fun b => conj (binary_overrides_norm b) (binary_print_norm b)). Qed.
 Print Assumptions C14_serde_binary_behaviour.
+
+(** ePC-SAFT binary record: the coefficient vector of k_ij(T) survives the round trip unchanged, whatever the value of
+    the constant term. *)
+Theorem C14_serde_epcsaft_binary : forall b, ebinary_ok b -> parse_ebinary (print_ebinary b) = Some (norm_ebinary b).
+Proof. exact ebinary_roundtrip. Qed.
+Print Assumptions C14_serde_epcsaft_binary.
+
+Theorem C14_serde_epcsaft_kij_preserved : forall b b', ebinary_ok b -> parse_ebinary (print_ebinary b) = Some b' -> eb_kij b' = eb_kij b.
+Proof. exact ebinary_kij_preserved. Qed.
+Print Assumptions C14_serde_epcsaft_kij_preserved.
 
 Theorem C14_serde_pure_record : forall p, pcsaft_ok (pu_model p) ->
   parse_pure (print_pure p) = Some (mkSPure (pu_id p) (pu_mw p) (norm_pcsaft (pu_model p))).
